@@ -44,6 +44,10 @@ pub struct C11Exec {
     pub salt: u64,
     /// verbatim repetition of that execution on fresh threads
     pub twin_of: Option<usize>,
+    /// run on the caller threads of that (earlier) execution instead of fresh ones
+    pub reuse_threads_of: Option<usize>,
+    /// before the execution, every caller parses this many unrelated, distinct contents
+    pub warmup: usize,
 }
 
 impl C11Exec {
@@ -206,8 +210,11 @@ pub fn generate(rng: &mut Rng, thorough: bool) -> (C11Scenario, String) {
         repeats: 1,
         salt: 0,
         twin_of: None,
+        reuse_threads_of: None,
+        warmup: 0,
     });
     let p_detour = *rng.pick(&[0u32, 25, 50]);
+    let p_reuse = *rng.pick(&[0u32, 0, 10, 35]);
     for e in 1..knobs.n_execs {
         let mut order: Vec<usize> = (0..n).collect();
         match rng.below(4) {
@@ -293,7 +300,19 @@ pub fn generate(rng: &mut Rng, thorough: bool) -> (C11Scenario, String) {
             4..=7 => Policy::Stream(key),
             _ => Policy::PerCaller(key),
         };
-        let n_callers = rng.range(1, 4);
+        // used threads: run on the callers of an earlier execution, maybe after they did other work
+        let (reuse_threads_of, warmup) = if rng.pct(p_reuse) {
+            let of = rng.below(e);
+            let w = match rng.below(10) {
+                0..=5 => 0,
+                6 | 7 => rng.range(1, 12),
+                _ => rng.range(64, 140),
+            };
+            (Some(of), w)
+        } else {
+            (None, 0)
+        };
+        let n_callers = if warmup > 12 { rng.range(1, 2) } else { rng.range(1, 4) };
         let callers = (0..script.len() + 2).map(|_| rng.below(n_callers)).collect();
         let repeats = if rng.pct(6) { rng.range(20, 150) } else { rng.range(1, 3) };
         let ex = C11Exec {
@@ -304,22 +323,26 @@ pub fn generate(rng: &mut Rng, thorough: bool) -> (C11Scenario, String) {
             repeats,
             salt: e as u64,
             twin_of: None,
+            reuse_threads_of,
+            warmup,
         };
         debug_assert!(ex.ends_in_project(n, alts.len()));
         execs.push(ex);
     }
-    // verbatim twin of one execution
-    let of = rng.below(execs.len());
+    // verbatim twin of one execution (one that starts on fresh threads)
+    let fresh: Vec<usize> = (0..execs.len()).filter(|i| execs[*i].reuse_threads_of.is_none()).collect();
+    let of = *rng.pick(&fresh);
     let mut twin = execs[of].clone();
     twin.twin_of = Some(of);
     execs.push(twin);
     let desc = format!(
-        "files={} dup={} malformed={} execs={} detour={} universe={}x{} {}",
+        "files={} dup={} malformed={} execs={} detour={} reuse={} universe={}x{} {}",
         knobs.n_files,
         knobs.p_dup_key,
         knobs.p_malformed,
         execs.len(),
         p_detour,
+        p_reuse,
         u.pkgs.len(),
         u.names.len(),
         knobs.gen.describe()
@@ -329,9 +352,22 @@ pub fn generate(rng: &mut Rng, thorough: bool) -> (C11Scenario, String) {
 
 /// Run one execution against the real library. Returns the final observations; of a long
 /// series of repetitions only the first one and the first one that differs from it are kept.
-pub fn execute(texts: &[(PathBuf, String)], alts: &[String], e: &C11Exec) -> Vec<Outcome> {
-    let callers = Callers::new(e.n_callers, e.policy, e.salt);
+pub fn execute(texts: &[(PathBuf, String)], alts: &[String], e: &C11Exec, callers: &Callers) -> Vec<Outcome> {
     let policy = e.policy;
+    if e.warmup > 0 {
+        for c in 0..e.n_callers {
+            let (n, salt) = (e.warmup, e.salt);
+            callers.exec(c, move || {
+                policy.install(u64::MAX - 1);
+                let mut p = P::new();
+                for w in 0..n {
+                    let text = format!("package warm; parcelable W{salt}x{c}x{w} {{ int f; }}");
+                    let _ = exec::add_content(&mut p, PathBuf::from(format!("warm/{w}.aidl")), &text);
+                }
+                let _ = exec::observe(&p);
+            });
+        }
+    }
     let caller_of = |i: usize| e.callers.get(i).copied().unwrap_or(0);
     let mut parser: P = callers.exec(caller_of(0), move || {
         policy.install(0);
@@ -399,6 +435,8 @@ pub struct C11Probes {
     pub same_line_diags: bool,
     pub treeless_multi_diag: bool,
     pub configs_differ: bool,
+    pub thread_reuse: bool,
+    pub thread_reuse_after_64_contents: bool,
     pub files: usize,
     pub diagnostics: usize,
     pub panics: usize,
@@ -506,8 +544,20 @@ pub fn run(s: &C11Scenario) -> C11Run {
     let mut all: Vec<Vec<Outcome>> = Vec::new();
     let mut steps = 0usize;
     let mut table_policies: BTreeMap<&'static str, usize> = BTreeMap::new();
-    for e in &s.execs {
-        let o = execute(&texts, &alt_texts, e);
+    let mut caller_sets: Vec<std::rc::Rc<Callers>> = Vec::new();
+    for (ei, e) in s.execs.iter().enumerate() {
+        let callers = match e.reuse_threads_of {
+            Some(of) if of < ei => caller_sets[of].clone(),
+            _ => std::rc::Rc::new(Callers::new(e.n_callers, e.policy, e.salt)),
+        };
+        caller_sets.push(callers.clone());
+        if e.reuse_threads_of.is_some() {
+            probes.thread_reuse = true;
+            if e.warmup >= 64 {
+                probes.thread_reuse_after_64_contents = true;
+            }
+        }
+        let o = execute(&texts, &alt_texts, e, &callers);
         steps += e.script.len() + 1 + e.repeats;
         *table_policies.entry(e.policy.name()).or_default() += 1;
         for x in &o {
@@ -598,6 +648,9 @@ pub fn run(s: &C11Scenario) -> C11Run {
                     }
                     if e.has_detour() {
                         why.push("detour through other states (replace / remove / extra file)");
+                    }
+                    if e.reuse_threads_of.is_some() {
+                        why.push("caller threads that were used before");
                     }
                     if why.is_empty() {
                         why.push("repetition / caller thread");
@@ -742,6 +795,12 @@ pub fn to_json(s: &C11Scenario) -> J {
                         if let Some(t) = e.twin_of {
                             o.put("twin_of", J::u(t as u64));
                         }
+                        if let Some(t) = e.reuse_threads_of {
+                            o.put("reuse_threads_of", J::u(t as u64));
+                        }
+                        if e.warmup > 0 {
+                            o.put("warmup", J::u(e.warmup as u64));
+                        }
                         o
                     })
                     .collect(),
@@ -771,6 +830,8 @@ pub fn from_json(j: &J) -> Result<C11Scenario, String> {
             repeats: e.get("repeats").and_then(|v| v.as_u64()).ok_or("repeats")? as usize,
             salt: e.get("salt").and_then(|v| v.as_u64()).ok_or("salt")?,
             twin_of: e.get("twin_of").and_then(|v| v.as_u64()).map(|v| v as usize),
+            reuse_threads_of: e.get("reuse_threads_of").and_then(|v| v.as_u64()).map(|v| v as usize),
+            warmup: e.get("warmup").and_then(|v| v.as_u64()).unwrap_or(0) as usize,
         });
     }
     let mut alts = Vec::new();
@@ -804,6 +865,16 @@ pub fn shrink_candidates(s: &C11Scenario) -> Vec<C11Scenario> {
     for ei in (1..s.execs.len()).rev() {
         let mut c = s.clone();
         c.execs.remove(ei);
+        if s.execs.iter().any(|e| e.reuse_threads_of == Some(ei)) {
+            continue; // somebody runs on this execution's threads
+        }
+        for e in c.execs.iter_mut() {
+            if let Some(t) = e.reuse_threads_of {
+                if t > ei {
+                    e.reuse_threads_of = Some(t - 1);
+                }
+            }
+        }
         let mut ok = true;
         for e in c.execs.iter_mut() {
             if let Some(t) = e.twin_of {
@@ -835,6 +906,13 @@ pub fn shrink_candidates(s: &C11Scenario) -> Vec<C11Scenario> {
             }
             let mut fine = !c2.execs.is_empty();
             for e in c2.execs.iter_mut() {
+                if let Some(t) = e.reuse_threads_of {
+                    let shift = rm.iter().filter(|r| **r < t).count();
+                    if rm.contains(&t) {
+                        fine = false;
+                    }
+                    e.reuse_threads_of = Some(t - shift.min(t));
+                }
                 if let Some(t) = e.twin_of {
                     let shift = rm.iter().filter(|r| **r < t).count();
                     if rm.contains(&t) {
@@ -958,6 +1036,22 @@ pub fn shrink_candidates(s: &C11Scenario) -> Vec<C11Scenario> {
             .map(|(i, _)| i)
             .collect();
         let mut variants: Vec<C11Exec> = Vec::new();
+        if e.reuse_threads_of.is_some() {
+            let mut v = e.clone();
+            v.reuse_threads_of = None;
+            v.warmup = 0;
+            variants.push(v);
+        }
+        if e.warmup > 0 {
+            let mut v = e.clone();
+            v.warmup = 0;
+            variants.push(v);
+            if e.warmup > 3 {
+                let mut v = e.clone();
+                v.warmup = e.warmup * 3 / 4;
+                variants.push(v);
+            }
+        }
         if e.repeats > 1 {
             let mut v = e.clone();
             v.repeats = 1;
